@@ -4,6 +4,7 @@
 #include <stdexcept>
 #include <algorithm>
 #include <cstring>
+#include <limits>
 
 namespace OP2Utility
 {
@@ -100,6 +101,16 @@ namespace OP2Utility
 			}
 
 			throw std::runtime_error("Unknown image header size of " + StringUtility::StringFrom(headerSize) + " detected. Header size must be equal to " + std::to_string(sizeof(ImageHeader)));
+		}
+
+		// A negative width has no meaning, and the most negative height has no absolute value.
+		// Either would make the pitch and pixel size calculations wrap around.
+		if (width < 0) {
+			throw std::runtime_error("Image width may not be negative, but is " + std::to_string(width));
+		}
+
+		if (height == std::numeric_limits<decltype(height)>::min()) {
+			throw std::runtime_error("Image height of " + std::to_string(height) + " is out of range");
 		}
 
 		if (planes != DefaultPlanes) {
